@@ -81,6 +81,27 @@ type execOpts struct {
 	state           *State
 }
 
+// cloneTx copies the transaction for signature hashing. Tx.Clone serialises
+// the transaction and reads it back, which cannot report a failure (it panics
+// or ends the process): a transaction that has no serialisation - a nil input
+// or output, an input without a 32 byte previous tx id, an output without a
+// locking script - is refused here with an error instead.
+func (t *thread) cloneTx() (*bt.Tx, error) {
+	for i, in := range t.tx.Inputs {
+		if in == nil || len(in.PreviousTxID()) != 32 {
+			return nil, errs.NewError(errs.ErrInvalidParams,
+				"transaction input %d is nil or has no 32 byte previous tx id", i)
+		}
+	}
+	for i, out := range t.tx.Outputs {
+		if out == nil || out.LockingScript == nil {
+			return nil, errs.NewError(errs.ErrInvalidParams,
+				"transaction output %d is nil or has no locking script", i)
+		}
+	}
+	return t.tx.Clone(), nil
+}
+
 func (o execOpts) validate() error {
 	// The provided transaction input index must refer to a valid input.
 	if o.inputIdx < 0 || (o.tx != nil && o.inputIdx > o.tx.InputCount()-1) {
@@ -92,6 +113,11 @@ func (o execOpts) validate() error {
 			errs.ErrInvalidIndex,
 			"transaction input index %d is negative or >= %d", o.inputIdx, inputCount,
 		)
+	}
+
+	// ... and the input it refers to must be there.
+	if o.tx != nil && o.tx.Inputs[o.inputIdx] == nil {
+		return errs.NewError(errs.ErrInvalidParams, "transaction input %d is nil", o.inputIdx)
 	}
 
 	outputHasLockingScript := o.previousTxOut != nil && o.previousTxOut.LockingScript != nil
